@@ -243,3 +243,12 @@ func alnum(s string) {
 		vf.Assume((c >= 'a' && c <= 'z') || (c >= '0' && c <= '9'))
 	}
 }
+
+// serveConn runs the per-connection handler the way Serve starts it: the
+// connection is registered with the proxy first.
+func serveConn(p *Proxy, conn net.Conn) {
+	p.connsMu.Lock()
+	p.conns.Add(1)
+	p.connsMu.Unlock()
+	p.handleLoop(conn)
+}
